@@ -25,7 +25,7 @@ def boundary_indices():
 MD_POOL = ["1", "2", "3", "7", "0", "-1", "+7", "16384", "1024", "1048576", "1048577", "238609294", "2147483647", "2147483648",
            "-2147483648", "4294967297", "4294967296", "9223372036854775807", "9223372036854775808", "-9223372036854775807",
            "abc", "-", "1e3", "\\s5", "5\\s", "0x10", "1_000", "1.0", "--1", "+", "٣", "99999999999999999999999"]
-MODES = ["default", "lcm", "routing"]
+MODES = ["default", "lcm", "routing", "intra", "intra0"]   # intra: routing mode, opened by a peer instance with and without (intra0) an intra-proxy manager (the model treats both as routing)
 
 
 def atoi_ok(s):
@@ -37,6 +37,10 @@ def atoi_ok(s):
     if v < -2**63 or v > 2**63 - 1:
         return None
     return v
+
+
+def mmode(mode):
+    return "routing" if mode in ("intra", "intra0") else mode
 
 
 def gen_history(rng, nops):
@@ -54,7 +58,7 @@ def gen_history(rng, nops):
         else:
             mode = rng.choice(MODES)
             ok = 1 if rng.chance(4, 5) else 0
-            if mode == "routing":
+            if mode in ("routing", "intra", "intra0"):
                 # an unreachable serving cluster in routing mode keeps the pair's sender up until the
                 # initiator hangs up (recorded as an observation in DESIGN.md); not a metadata matter
                 ok = 1
@@ -69,21 +73,26 @@ def gen_history(rng, nops):
             for s in vals:
                 a = None if s == "-" else atoi_ok(s)
                 mvals.append("-" if a is None else str(a))
-            model.append("H %s %d %s" % (mode, ok, " ".join(mvals)))
+            model.append("H %s %d %s" % (mmode(mode), ok, " ".join(mvals)))
     # always finish with well-formed streams in every mode: they must be served
     for mode in MODES:
-        line = "H %s 1 1 3 2 5" % mode
-        impl.append(line); model.append(line)
+        impl.append("H %s 1 1 3 2 5" % mode); model.append("H %s 1 1 3 2 5" % mmode(mode))
     return impl, model
 
 
-def systematic():
+def systematic(tier="thorough"):
     """every boundary index followed by a well-formed report and well-formed streams"""
     hs = []
-    for idx in boundary_indices():
+    for k, idx in enumerate(boundary_indices()):
         impl = ["N", "R %d 1" % idx, "R 7 1", "R %d -1" % idx, "H default 1 1 3 2 %d" % idx, "H routing 1 1 3 2 %d" % idx,
                 "H lcm 1 1 3 2 %d" % idx, "R 7 -1", "H default 1 1 3 2 5"]
         hs.append((impl, list(impl)))
+        # the same ids on a stream opened by a peer instance, in each of the four positions, followed by a well-formed one
+        for pos in (range(4) if tier == "thorough" or k % 4 == 0 else (0, 2)):
+            vals = ["1", "3", "2", "5"]
+            vals[pos] = str(idx)
+            impl = ["N", "H intra 1 " + " ".join(vals), "H intra 1 1 3 2 5", "H routing 1 1 3 2 5", "H intra0 1 " + " ".join(vals), "H intra0 1 1 3 2 5"]
+            hs.append((impl, [l.replace("H intra0", "H routing").replace("H intra", "H routing") for l in impl]))
     for s in MD_POOL:
         for pos in range(4):
             vals = ["1", "3", "2", "5"]
@@ -91,8 +100,8 @@ def systematic():
             a = None if s == "-" else atoi_ok(s)
             mv = list(vals)
             mv[pos] = "-" if a is None else str(a)
-            impl = ["N", "H default 1 " + " ".join(vals), "H lcm 1 " + " ".join(vals), "H routing 1 " + " ".join(vals), "H default 1 1 3 2 5"]
-            model = ["N", "H default 1 " + " ".join(mv), "H lcm 1 " + " ".join(mv), "H routing 1 " + " ".join(mv), "H default 1 1 3 2 5"]
+            impl = ["N", "H default 1 " + " ".join(vals), "H lcm 1 " + " ".join(vals), "H routing 1 " + " ".join(vals), "H intra 1 " + " ".join(vals), "H default 1 1 3 2 5", "H intra 1 1 3 2 5", "H intra0 1 " + " ".join(vals), "H intra0 1 1 3 2 5"]
+            model = ["N", "H default 1 " + " ".join(mv), "H lcm 1 " + " ".join(mv), "H routing 1 " + " ".join(mv), "H routing 1 " + " ".join(mv), "H default 1 1 3 2 5", "H routing 1 1 3 2 5", "H routing 1 " + " ".join(mv), "H routing 1 1 3 2 5"]
             hs.append((impl, model))
     return hs
 
@@ -105,18 +114,34 @@ def run_both(hs, exe, tag, mode="new"):
     open(minp, "w").write("".join("\n".join(h[1]) + "\n" for h in hs))
     if os.path.exists(outp):
         os.remove(outp)
-    rc, out = V.go_test("proxy", GO_FILES, "^TestVerifObserver$", env={"VERIF_IN": inp, "VERIF_OUT": outp}, timeout=1200)
+    # the model driver (zero-filling list resizes for huge indices are slow) runs in 8 processes beside the Go harness
+    from concurrent.futures import ThreadPoolExecutor
+    nchunk = 8 if len(hs) >= 16 else 1
+    per = (len(hs) + nchunk - 1) // nchunk
+    chunks = [hs[i:i + per] for i in range(0, len(hs), per)]
+
+    def run_chunk(c):
+        return V.run(["sh", "-c", "ulimit -s unlimited; exec %s %s" % (exe, mode)], input="".join("\n".join(h[1]) + "\n" for h in c), timeout=1200)
+    with ThreadPoolExecutor(max_workers=nchunk + 1) as ex:
+        futs = [ex.submit(run_chunk, c) for c in chunks]
+        rc, out = V.go_test("proxy", GO_FILES, "^TestVerifObserver$", env={"VERIF_IN": inp, "VERIF_OUT": outp}, timeout=1200)
+        mres = [f.result() for f in futs]
     if rc != 0 or not os.path.exists(outp):
         return "go test failed:\n" + out[-3000:], None, None
     impl = open(outp).read().split("\n")
-    rc, mout = V.run(["sh", "-c", "ulimit -s unlimited; exec %s %s" % (exe, mode)], input=open(minp).read(), timeout=1200)
-    if rc != 0:
-        return "model driver failed: " + mout[-2000:], None, None
-    model = mout.split("\n")
+    model = []
+    for (mrc, mout), c in zip(mres, chunks):
+        if mrc != 0:
+            return "model driver failed: " + mout[-2000:], None, None
+        model += mout.split("\n")[:sum(len(h[1]) for h in c)]
     ih, mh, i = [], [], 0
     for h in hs:
         n = len(h[0])
-        ih.append(impl[i:i + n]); mh.append(model[i:i + n]); i += n
+        ml = model[i:i + n]
+        # an instance without an intra-proxy manager (no memberlist configured) refuses streams opened by a peer instance with
+        # an error: same bookkeeping as the model's served stream, outcome 'rejected'
+        ml = [m.replace("H served", "H rejected", 1) if op.startswith("H intra0 ") else m for op, m in zip(h[0], ml)]
+        ih.append(impl[i:i + n]); mh.append(ml); i += n
     return None, ih, mh
 
 
@@ -144,7 +169,7 @@ def check(tier, seed):
         ck.violation({"kind": "build", "log": log[-4000:], "broken": "extraction of Observer/Model.v"}, "model driver does not build", no_input=True)
         return ck.finish()
     rng = V.Rng(seed)
-    hs = load_corpus() + systematic()
+    hs = load_corpus() + systematic(tier)
     n_rand = 40 if tier == "quick" else 1500
     for i in range(n_rand):
         hs.append(gen_history(rng, rng.range(8, 40)))
@@ -158,7 +183,7 @@ def check(tier, seed):
     # served check: the trailing well-formed streams
     for i, h in enumerate(hs):
         for k, l in enumerate(h[0]):
-            if l.startswith("H ") and l.split()[2] == "1" and all(re.fullmatch(r"[0-9]+", x) for x in l.split()[3:7]) \
+            if l.startswith("H ") and l.split()[1] != "intra0" and l.split()[2] == "1" and all(re.fullmatch(r"[0-9]+", x) for x in l.split()[3:7]) \
                     and all(0 < int(x) <= I32MAX for x in l.split()[3:7]) and not ih[i][k].startswith("H served"):
                 if i not in mon:
                     mon.append(i)
